@@ -353,6 +353,8 @@ def sessions_task(name, text, scripts):
         r = sh.child('debug', hx(path), hx(data), 20)
         st.inc('sessions')
         st.inc('transitions', len(script))
+        if len(st.samples) < 3:
+            st.sample({'program': name, 'script': list(script), 'status': r.status})
         res = check_session(prog, list(script), r.status, r.out.decode('utf-8', 'replace'), r.err.decode('utf-8', 'replace'))
         st.add('status', r.status)
         if res is not None:
